@@ -119,14 +119,15 @@ class VSeq(V):
     """abstract immutable sequence of unknown length: len is a z3 Int,
     elements are opaque ``name[i]``.  ``lazy`` marks a lazily produced
     sequence with ghost pull accounting (C12)."""
-    __slots__ = ('name', 'length', 'elem', 'kind', 'ghost')
+    __slots__ = ('name', 'length', 'elem', 'kind', 'ghost', 'shape')
 
-    def __init__(self, name, length, kind='list', ghost=None):
+    def __init__(self, name, length, kind='list', ghost=None, shape=None):
         self.name = name
         self.length = length
         self.elem = z3.Function('elem_' + name, z3.IntSort(), Val)
         self.kind = kind
         self.ghost = ghost
+        self.shape = shape      # n: every element is an n-tuple (established by a checked loop clause)
 
     def __repr__(self):
         return 'VSeq(%s)' % self.name
